@@ -65,7 +65,7 @@ func FuzzC43(f *testing.F) {
 		if len(data) > 1<<16 {
 			return
 		}
-		s := &c43Stream{Preload: []int{0, 5}, Bytes: data}
+		s := &c43Stream{Preload: []int{0, 2}, Bytes: data}
 		if err := c43ServeStream(w, s); err != nil {
 			t.Fatalf("VF-VIOLATION: property=C43 %v", err)
 		}
